@@ -23,6 +23,9 @@ import CookModel.Lemmas.ClosingStream
 import CookModel.Lemmas.CollectorRefIff
 import CookModel.Lemmas.CollectorShape
 import CookModel.Lemmas.CollectorLast
+import CookModel.Lemmas.RoundtripRefsX
+import CookModel.Lemmas.RoundtripDocRefs
+import CookModel.Lemmas.RoundtripModes
 /-
   C01  Printing a recipe as Cooklang and parsing it returns that recipe.
 
@@ -655,6 +658,33 @@ example : metaOK toyCharSpec [tk .word "prep".toList, tk .ws [' '], tk .word "ti
 example : metaOK toyCharSpec [tk .word ['a'], tk .colon [':'], tk .word ['b']] [tk .word ['v']] {} = false := by decide
 example : stepBlockOK (C01_exStepX.flatMap SegX.spell) = true := by decide
 
+/-- A text paragraph (`>` block, `parse_text_block`).  The tokens of one block that spell the lines of a
+    paragraph (`PLine`: every line may start with `>` and one run of blanks — the first line must —, then a
+    body without newline token that shows at least one non-blank character; all lines but the last end with
+    their newline token; `paraLinesOK`) are parsed by `parse_block` + `finish` to `start text`, exactly ONE text
+    event per line whose text is the line's body followed by one space for the line break (`PLine.text`; the
+    `>` and the blank after it are not part of the text), and `end text`; nothing else is emitted, no panic.
+    (A line without `>` continues the paragraph; a `>` later in a line is ordinary text.) -/
+theorem C01_block_paragraph {α : Type} [Arith α] (lines : List PLine) (cs : CharSpec) (ext : Ext) (oldStyle : Bool)
+    (ts : List Tok) (evs0 : Array (Ev α)) (panic : Option String) (hs : Spells ts (lines.flatMap PLine.spell))
+    (hrun : RunAt (baseOff ts) ts) (hok : paraLinesOK cs lines = true) (hfirst : lines.head?.any (·.marker) = true) :
+    ∃ (txts : List Text) (arr : Array (Ev α)),
+      runBlock cs ext oldStyle ts evs0 panic = (arr, panic) ∧
+      arr.toList = evs0.toList ++ [.start .text] ++ txts.map Ev.text ++ [.stop .text] ∧
+      txts.map (·.text) = lines.map PLine.text :=
+  rtp_runBlock_para lines cs ext oldStyle ts evs0 panic hs hrun hok hfirst
+
+/-! example: `> Note:⏎rest.` (the second line without `>`); a line with nothing to show, a first line without
+    `>` are rejected -/
+def C01_exPara : List PLine :=
+  [{ sp := [tk .ws [' ']], body := [tk .word "Note".toList, tk .colon [':']], nl := [tk .newline ['\n']] },
+   { marker := false, body := [tk .word "rest".toList, tk .dot ['.']] }]
+example : (DocItem.para C01_exPara).ok toyCharSpec ⟨0⟩ = true := by decide
+example : C01_exPara.flatMap PLine.text = "Note: rest.".toList := by decide
+example : String.ofList (render ((DocItem.para C01_exPara).spell)) = "> Note:\nrest." := by decide
+example : (DocItem.para [{ body := [tk .ws [' ']] }]).ok toyCharSpec ⟨0⟩ = false ∧
+    (DocItem.para [{ marker := false, body := [tk .word ['a']] }]).ok toyCharSpec ⟨0⟩ = false := by decide
+
 /-! ### from the printed characters to the events -/
 
 /-- The link between the printer's characters and every theorem above: if the printed token list
@@ -766,13 +796,15 @@ theorem C01_blocks_split (pre : List Tok) (ds : List (List Tok × List Tok)) (hp
 /-- Document level of the round trip.  A recipe text printed from `pre ++ docSpec doc` — leading
     blank lines, then the items of `doc`: steps (`SegX` segment lists as in `C01_step_compose`,
     on one or several lines: a text run may contain newline tokens as long as no line of the step
-    is blank or starts with `>>` / `=`), section lines, `>>` metadata lines, each satisfying the side
+    is blank or starts with `>>` / `=`), section lines, `>>` metadata lines, text paragraphs (`>` blocks of
+    one or more lines, `C01_block_paragraph`), each satisfying the side
     conditions of its layer (`DocItem.ok`), separated as in `C01_blocks_split` (`sepsOK`) — when
     the printed token list is well spelled and the text has no front-matter fence, is read by the
     whole pull parser (lexer, block splitter, `parse_block` on every block) as follows: the
     splitter produces exactly one block per item, whose tokens spell the item; the event list is
     the concatenation, in order, of the events of the items (`DocItemEvs`: `start step`, one event
-    per segment, `stop step`; one `section` event; one `metadata` event); no error, no warning, no
+    per segment, `stop step`; one `section` event; one `metadata` event; `start text`, one text event per
+    line of a paragraph, `end text`); no error, no warning, no
     panic.  A soft line break inside a step shows as one space in the text event
     (`C01_soft_break_is_space`).  This discharges the `partial` of `C01_input_step_line_partial`
     for several blocks and multi-line steps; what remains outside is front matter (`---`) as the
@@ -1033,8 +1065,10 @@ theorem C01_metadata_entry {α : Type} [Arith α] (env : Env) (input : Str) (k v
     (h : EntryPlain env k v) : (processEvent env input (.metadata k v) s).2 = entryEffect env k v s :=
   rts_metadataA_plain env k v s h
 
-/-- The round trip for documents made of steps, section lines and `>>` metadata lines, from the printed
-    characters to the recipe (extends `C01_recipe_steps`; same hypotheses on the syntax layers:
+/-- The round trip for documents made of steps, section lines, `>>` metadata lines and text paragraphs
+    (`DocItem.para`: the joined text of the lines — a line break shows as one space, the `>` markers are
+    dropped — becomes one `Content::Text` at its place in the section, unnumbered: `absParaContent`), from the
+    printed characters to the recipe (extends `C01_recipe_steps`; same hypotheses on the syntax layers:
     `DocItem.ok`, `sepsOK`, `blankLinesOK`, well-spelledness, no front-matter fence; steps made of plain
     definitions, `DocItem.simple`), for EVERY extension set — so for the canonical parser (no extension) and
     for the extended parser (all extensions) of the property's quantifier: instead of requiring
@@ -1053,8 +1087,8 @@ theorem C01_metadata_entry {α : Type} [Arith α] (env : Env) (input : Str) (k v
       repeated key overwritten in place;
     * the diagnostics are exactly: nothing when the document has no `>>` line, otherwise the ONE
       deprecation warning with one label per `>>` line (the only warning the property's oracle allows).
-    Outside (tested only): front matter as the metadata carrier, the three time keys, mode switches,
-    references and intermediate references. -/
+    Outside (tested only): front matter as the metadata carrier, the three time keys, mode switches;
+    references and intermediate references are in `C01_recipe_doc_refs`. -/
 theorem C01_recipe_doc {α : Type} [Arith α] (env : Env) (pre : List Tok) (doc : List (DocItem × List Tok))
     (hpre : blankLinesOK pre = true) (hok : ∀ d ∈ doc, d.1.ok env.cs env.ext = true)
     (hsimple : ∀ d ∈ doc, d.1.simple = true) (hplain : ∀ d ∈ doc, d.1.plain env)
@@ -1415,5 +1449,274 @@ example : (parseEvents C01_toyEnv [] [.start .step, .cookware C01_exPot1, .cookw
     some ([.definition [1] true, .reference 0], [⟨none, [.step ⟨[.cookware 0, .cookware 1], 1⟩]⟩], []) := by rfl
 example : CwRefChecksQuiet C01_exPotRef (cwOf C01_toyEnv C01_exPotRef).quantity (cwOf C01_toyEnv C01_exPot1) true :=
   ⟨rfl, by decide, fun rq dq h => by cases h⟩
+
+/-! ### documents with references of all three kinds, from the printed characters to the recipe -/
+
+/-- **An intermediate reference that resolves is stored and nothing is reported.**  The collector is in define
+    mode `all` inside a step block; the event is an ingredient with intermediate data `d` (`@&(~1)name{}`)
+    that carries `&` and none of `@`, `-`, `+` (RECIPE, HIDDEN, NEW: `inter-ref-conflicting-modifiers`),
+    whose amount raises no scaling-lock warning, whose number is not negative, and whose target exists
+    (`interRefTarget` on the content of the current section and the number of finished sections = `.ok rel`;
+    `C01_intermediate_target_spec` says which position that is).  Then the event appends the ingredient as
+    written with `relation := rel` (no name lookup, no back-link), appends the item to the open step, and
+    changes nothing else: no diagnostic, no panic. -/
+theorem C01_intermediate_ref_event {α : Type} [Arith α] (env : Env) (input : Str) (li : Loc (PIngredient α))
+    (s : Col α) (items : List Item) (d : Loc InterData) (rel : IngredientRelation)
+    (hd : s.defineMode = .all) (hb : s.block = some (.step items)) (hinter : li.val.inter = some d)
+    (hlock : ∀ q, li.val.quantity = some q → lockOK q.val.value true)
+    (hREF : li.val.modifiers.val.contains Modifiers.REF = true)
+    (hvalid : li.val.modifiers.val.bits &&& (Modifiers.RECIPE ||| Modifiers.HIDDEN ||| Modifiers.NEW) = 0)
+    (hnn : 0 ≤ d.val.val) (ht : interRefTarget s.cur.content s.sections.length d.val = .ok rel) :
+    (processEvent env input (.ingredient li) s).2 =
+      { s with
+        locIngr := s.locIngr.push li,
+        ingredients := s.ingredients.push { ingrOf env li with relation := rel },
+        block := some (.step (items ++ [.ingredient s.ingredients.size])) } :=
+  rtax_proc_ingredient_inter env input li s items d rel hd hb hinter hlock hREF hvalid hnn ht
+
+/-- Analysis layer for documents whose components may be references of all three kinds (extends
+    `C01_analysis_doc_refs`, which has ingredient references only).  `blocks` is what the parser hands over;
+    every item satisfies the table-independent side conditions `SItem.SideOK` (no scaling-lock warning; a text
+    without inline quantity under INLINE_QUANTITIES; a timer ADVANCED_UNITS accepts), every `>>` entry is plain;
+    and the conditions on references hold, THREADED through the document (`xOK`, over the described blocks
+    `SBlock.x`: each item is checked against the tables of the components before it, the content of its
+    section so far and the number of finished sections): an ingredient is a plain definition, or a correctly
+    written `&name` (`IngrRefOKG`), or carries intermediate data whose target exists (`IngrOKG`); a cookware
+    item is a plain definition or a correctly written `#&name` (`CwRefOKG`).  Then `parse_events` returns the
+    recipe `xRun …`, a PURE function of the described blocks:
+    * `ingredients`: definitions appended as written; a `&name` appended as `asReference …` after the back-link
+      update of its definition; an intermediate reference appended as written with the relation
+      `interRefTarget` computes (`ingrPushG`);
+    * `cookware` likewise (`cwPushG`), `timers` as written;
+    * `sections`, step numbers per section, item indices (= table sizes), text paragraphs, `>>` map as in
+      `C01_analysis_doc`;
+    * diagnostics: only the `>>` deprecation notice, if any; no panic. -/
+theorem C01_analysis_doc_all_refs {α : Type} [Arith α] (env : Env) (input : Str) (blocks : List (SBlock α))
+    (hside : ∀ b ∈ blocks, b.SideOK env)
+    (hok : xOK env {} [] ⟨none, []⟩ 1 (blocks.map (SBlock.x env))) :
+    ∃ c : Col α, parseEvents env input (blocks.flatMap SBlock.events) = ⟨some c, c.diags, none⟩ ∧
+      c.sections = (xRun env {} [] ⟨none, []⟩ 1 [] (blocks.map (SBlock.x env))).secs ∧
+      c.ingredients = (xRun env {} [] ⟨none, []⟩ 1 [] (blocks.map (SBlock.x env))).T.ing ∧
+      c.cookware = (xRun env {} [] ⟨none, []⟩ 1 [] (blocks.map (SBlock.x env))).T.cw ∧
+      c.timers = (xRun env {} [] ⟨none, []⟩ 1 [] (blocks.map (SBlock.x env))).T.tm ∧
+      c.metaMap = (xRun env {} [] ⟨none, []⟩ 1 [] (blocks.map (SBlock.x env))).metaMap ∧
+      c.diags = deprecation (docSpans (docEntries blocks)) ∧
+      c.inlineQ = #[] ∧ c.frontMatter = none :=
+  rtax_parseEvents_doc env input blocks hside hok
+
+/-- **The round trip for documents with references, from the printed characters to the recipe.**  `doc` as
+    in `C01_recipe_doc` (steps of one or more lines, section lines, plain `>>` lines; the same hypotheses on the
+    syntax layers: `DocItem.ok`, `sepsOK`, `blankLinesOK`, well-spelledness, no front-matter fence;
+    `DocItem.extOK`, `DocItem.plain`), but the segments of a step are NOT restricted to plain definitions
+    (`SegX.simple` is replaced by `DocItem.lockOK`: `=` only on a numeric ingredient amount): an ingredient or
+    cookware item may carry `&` (`@&flour{50%g}`, `#&bowl{}`), an ingredient may be an intermediate reference
+    `@&(~1)dough{}` (`SegX.ingredientI`, all four forms, other modifier characters around).  The conditions
+    on the references are those of `C01_analysis_doc_all_refs`, stated on the ABSTRACT document
+    (`DocItem.x`: the components the printer intended, `absIngr` / `absCw` / `absTimer`) — so they and the
+    result are computable from what was printed (`C01_reference_conditions_check`; example below).  Then
+    `CooklangParser::parse` returns a recipe, no panic, and sections, the three tables, the `>>` map are
+    `xRun …` of the abstract document: a regular reference points to the last earlier non-REF definition of
+    its name, which lists it back; an intermediate reference points to the k-th step of its section / k-th
+    step back / k-th section (`C01_intermediate_target_spec`); the only diagnostic is the `>>` deprecation
+    notice.  Text paragraphs (`DocItem.para`) are part of the document: they occupy a position of the
+    section's content, which an intermediate step reference skips when counting.  Outside: ADVANCED_UNITS
+    together with regular ingredient references (unit compatibility checks), mode switches, front matter. -/
+theorem C01_recipe_doc_refs {α : Type} [Arith α] (env : Env) (pre : List Tok) (doc : List (DocItem × List Tok))
+    (hpre : blankLinesOK pre = true) (hok : ∀ d ∈ doc, d.1.ok env.cs env.ext = true)
+    (hlock : ∀ d ∈ doc, d.1.lockOK = true) (hplain : ∀ d ∈ doc, d.1.plain env)
+    (hext : ∀ d ∈ doc, d.1.extOK α env)
+    (hrefs : xOK (α := α) env {} [] ⟨none, []⟩ 1 (doc.map (fun d => d.1.x)))
+    (hseps : sepsOK (doc.map (·.2)) = true) (hw : WellSpelled env.cs (pre ++ docSpec doc))
+    (hfm : parseFrontmatter env.cs (render (pre ++ docSpec doc)) = none) :
+    ∃ (c : Col α) (spans : List Span),
+      parseRecipe env (render (pre ++ docSpec doc)) = ⟨some c, c.diags, none⟩ ∧
+      c.sections = (xRun (α := α) env {} [] ⟨none, []⟩ 1 [] (doc.map (fun d => d.1.x))).secs ∧
+      c.ingredients = (xRun (α := α) env {} [] ⟨none, []⟩ 1 [] (doc.map (fun d => d.1.x))).T.ing ∧
+      c.cookware = (xRun (α := α) env {} [] ⟨none, []⟩ 1 [] (doc.map (fun d => d.1.x))).T.cw ∧
+      c.timers = (xRun (α := α) env {} [] ⟨none, []⟩ 1 [] (doc.map (fun d => d.1.x))).T.tm ∧
+      c.metaMap = (xRun (α := α) env {} [] ⟨none, []⟩ 1 [] (doc.map (fun d => d.1.x))).metaMap ∧
+      c.diags = deprecation spans ∧ spans.length = ((doc.map (·.1)).filter DocItem.isMeta).length ∧
+      c.inlineQ = #[] ∧ c.frontMatter = none :=
+  rtdr_parseRecipe_doc env pre doc hpre hok hlock hplain hext hrefs hseps hw hfm
+
+/-- the conditions on references are decidable: the computable check `xOKB` (name lookup with
+    `sameNameIdx`, the target is a definition, no conflicting modifier, amounts agree; the intermediate
+    target exists) implies them -/
+theorem C01_reference_conditions_check {α : Type} [Arith α] (env : Env) (blocks : List (XBlock α)) (T : XTbls α)
+    (secs : List Section) (cur : Section) (num : Nat) (h : xOKB env T secs cur num blocks = true) :
+    xOK env T secs cur num blocks :=
+  rtdr_xOKB env blocks T secs cur num h
+
+/-- a plain definition (`SegX.simple`) satisfies the lock condition of `C01_recipe_doc_refs` -/
+theorem C01_simple_lock_ok (seg : SegX) (h : seg.simple = true) : seg.lockOK = true := rtdr_simple_lockOK seg h
+
+/-! example: `Mix @flour{200%g} in #bowl{}.` / `> Note:⏎rest.` / `Add @&flour{50%g} to @&(~1)dough{} in #&bowl{}.` /
+    `== Bake == ` / `Bake @&( = ~ 1 )?loaf{}.` under MODIFIERS + ALIAS + INTERMEDIATE_PREPARATIONS.  The
+    hypotheses hold (the reference conditions by the computable check); the result: `flour` lists its
+    reference 1 back, `dough` points to position 0 of the unnamed section (the step before: the paragraph at
+    position 1 is skipped), `loaf` to section 0 (one section back) and is optional; `bowl` likewise for
+    cookware; item indices run through; the paragraph is unnumbered content. -/
+def C01_refsExt : Ext :=
+  ⟨Gen.EXT_COMPONENT_MODIFIERS ||| Gen.EXT_COMPONENT_ALIAS ||| Gen.EXT_INTERMEDIATE_PREPARATIONS⟩
+def C01_refsEnv : Env := ⟨toyCharSpec, C01_refsExt, fun _ => none, fun _ _ => .ok, fun c => [c], 0⟩
+def C01_grams (n : String) : AQty := { val := .num (.int n.toList), unit := some [tk .word ['g']] }
+def C01_sp : Tok := tk .ws [' ']
+def C01_exRefsDoc : List (DocItem × List Tok) :=
+  [(.step [.text [tk .word "Mix".toList, C01_sp],
+           .ingredient { name := [tk .word "flour".toList], qty := some (C01_grams "200") } {},
+           .text [C01_sp, tk .word "in".toList, C01_sp],
+           .cookware { name := [tk .word "bowl".toList] } {},
+           .text [tk .dot ['.']]], [C01_nl, C01_nl]),
+   (.para C01_exPara, [C01_nl, C01_nl]),
+   (.step [.text [tk .word "Add".toList, C01_sp],
+           .ingredient { mods := [.and], name := [tk .word "flour".toList], qty := some (C01_grams "50") } {},
+           .text [C01_sp, tk .word "to".toList, C01_sp],
+           .ingredientI [] [] { relative := true, digits := ['1'] } {} { name := [tk .word "dough".toList] } {},
+           .text [C01_sp, tk .word "in".toList, C01_sp],
+           .cookware { mods := [.and], name := [tk .word "bowl".toList] } {},
+           .text [tk .dot ['.']]], [C01_nl, C01_nl]),
+   (.sectionLine (some [tk .word "Bake".toList]) C01_exSPad, [C01_nl, C01_nl]),
+   (.step [.text [tk .word "Bake".toList, C01_sp],
+           .ingredientI [] [.question] { relative := true, isSection := true, digits := ['1'] } C01_exIPad
+             { name := [tk .word "loaf".toList] } {},
+           .text [tk .dot ['.']]], [C01_nl])]
+
+set_option maxRecDepth 4000 in
+example : String.ofList (render (docSpec C01_exRefsDoc)) =
+    "Mix @flour{200%g} in #bowl{}.\n\n> Note:\nrest.\n\nAdd @&flour{50%g} to @&(~1)dough{} in #&bowl{}.\n\n== Bake == \n\nBake @&( = ~ 1 )?loaf{}.\n" := by
+  decide
+example : (∀ d ∈ C01_exRefsDoc, d.1.ok C01_refsEnv.cs C01_refsEnv.ext = true) ∧
+    (∀ d ∈ C01_exRefsDoc, d.1.lockOK = true) ∧ sepsOK (C01_exRefsDoc.map (·.2)) = true := by decide
+example : WellSpelled toyCharSpec (docSpec C01_exRefsDoc) := by decide
+example : (parseFrontmatter toyCharSpec (render (docSpec C01_exRefsDoc))).isNone = true := by decide
+example : xOK (α := Rat) C01_refsEnv {} [] ⟨none, []⟩ 1 (C01_exRefsDoc.map (fun d => d.1.x)) :=
+  C01_reference_conditions_check _ _ _ _ _ _ (by decide)
+example : (∀ d ∈ C01_exRefsDoc, d.1.plain C01_refsEnv) ∧ (∀ d ∈ C01_exRefsDoc, d.1.extOK Rat C01_refsEnv) := by
+  constructor <;> intro d hd <;>
+    simp only [C01_exRefsDoc, List.mem_cons, List.not_mem_nil, or_false] at hd <;>
+    rcases hd with rfl | rfl | rfl | rfl | rfl <;> try trivial
+  all_goals
+    intro sg _
+    cases sg <;> first | trivial | (intro h; exact absurd h (by decide))
+example : (xRun (α := Rat) C01_refsEnv {} [] ⟨none, []⟩ 1 [] (C01_exRefsDoc.map (fun d => d.1.x))).secs =
+    [⟨none, [.step ⟨[.text "Mix ".toList, .ingredient 0, .text " in ".toList, .cookware 0, .text ".".toList], 1⟩,
+             .text "Note: rest.".toList,
+             .step ⟨[.text "Add ".toList, .ingredient 1, .text " to ".toList, .ingredient 2, .text " in ".toList,
+                     .cookware 1, .text ".".toList], 2⟩]⟩,
+     ⟨some "Bake".toList, [.step ⟨[.text "Bake ".toList, .ingredient 3, .text ".".toList], 1⟩]⟩] := by decide
+example : (xRun (α := Rat) C01_refsEnv {} [] ⟨none, []⟩ 1 [] (C01_exRefsDoc.map (fun d => d.1.x))).T.ing.toList.map
+      (fun i => (i.name, i.relation, i.modifiers)) =
+    [("flour".toList, ⟨.definition [1] true, none⟩, ⟨0⟩),
+     ("flour".toList, ⟨.reference 0, some .ingredient⟩, ⟨Modifiers.REF⟩),
+     ("dough".toList, ⟨.reference 0, some .step⟩, ⟨Modifiers.REF⟩),
+     ("loaf".toList, ⟨.reference 0, some .section⟩, ⟨Modifiers.REF ||| Modifiers.OPT⟩)] := by decide
+example : (xRun (α := Rat) C01_refsEnv {} [] ⟨none, []⟩ 1 [] (C01_exRefsDoc.map (fun d => d.1.x))).T.cw.toList.map
+      (fun i => (i.name, i.relation, i.modifiers)) =
+    [("bowl".toList, .definition [1] true, ⟨0⟩), ("bowl".toList, .reference 0, ⟨Modifiers.REF⟩)] := by decide
+/-- the conditions are needed: a reference without an earlier definition (`reference-not-found`), an
+    intermediate reference to a step that does not exist (`inter-ref-bounds`) fail the check -/
+example : xOKB (α := Rat) C01_refsEnv {} [] ⟨none, []⟩ 1
+    [.step [.ingr none (absIngr { mods := [.and], name := [tk .word "flour".toList] })]] = false := by decide
+example : xOKB (α := Rat) C01_refsEnv {} [] ⟨none, []⟩ 1
+    [.step [.ingr (some ⟨true, false, 1⟩) (absIngrM [.and] { name := [tk .word "dough".toList] })]] = false := by decide
+
+/-! ### mode switches through the analysis pass -/
+
+/-- `>> [mode]: components` (also `[define]`, `ingredients`) under MODES sets the define mode and does nothing
+    else: it is not a metadata entry (nothing enters the map, no deprecation label, no diagnostic) -/
+theorem C01_mode_switch_on {α : Type} [Arith α] (env : Env) (input : Str) (k v : Text) (s : Col α)
+    (h : ModeOn env k v) : (processEvent env input (.metadata k v) s).2 = { s with defineMode := .components } :=
+  rtm_modeOn env k v s h
+
+/-- `>> [mode]: all` (also `[define]`, `default`) switches back, and does nothing else -/
+theorem C01_mode_switch_off {α : Type} [Arith α] (env : Env) (input : Str) (k v : Text) (s : Col α)
+    (h : ModeOff env k v) : (processEvent env input (.metadata k v) s).2 = { s with defineMode := .all } :=
+  rtm_modeOff env k v s h
+
+/-- **A region written in components mode.**  The collector is in the default modes between blocks (`stOfT`:
+    any finished sections, current section, tables `T`, metadata, diagnostics).  The events are
+    `>> [mode]: components`, then any number of step blocks whose items are plain definitions of ingredients,
+    cookware, timers (`SItem.CompOK`; a text is allowed if it has no letter or digit — otherwise
+    `text-in-components-mode` is raised), then `>> [mode]: all`.  Afterwards the collector is in the default
+    modes again and
+    * the components are IN THE TABLES, in order, as written, with `defined_in_step = false` (`xCTbls`);
+    * they are NOT IN STEPS: the content of the current section, the finished sections are unchanged;
+    * STEP NUMBERING IS UNAFFECTED: the step counter `n` is unchanged;
+    * the `>>` map, the deprecation labels, the diagnostics, the panic flag are unchanged. -/
+theorem C01_components_mode_region {α : Type} [Arith α] (env : Env) (input : Str) (base : Col α) (hb : BaseOK base)
+    (rest : List (Ev α)) (kOn vOn kOff vOff : Text) (hon : ModeOn env kOn vOn) (hoff : ModeOff env kOff vOff)
+    (defs : List (List (SItem α))) (hs : ∀ st ∈ defs, ∀ it ∈ st, it.CompOK env)
+    (before : List (SItem α)) (T : XTbls α) (hfit : TblsFit before T) (content : List Content) (n : Nat) :
+    parseEventsLoop env input (compsEvents kOn vOn defs kOff vOff ++ rest) (stOfT base before T content n none) =
+      parseEventsLoop env input rest
+        (stOfT base (before ++ defs.flatten) (xCTbls T (defs.flatten.map (SItem.x env))) content n none) :=
+  (rtm_region env input base hb rest kOn vOn kOff vOff hon hoff defs hs before T hfit content n).1
+
+/-- **Analysis layer for documents with components-mode regions** (extends `C01_analysis_doc_all_refs`).  The
+    blocks are those of that theorem (`MBlock.plain`) and components-mode regions (`MBlock.comps`, as in
+    `C01_components_mode_region`).  `parse_events` returns the recipe `xRun …` of the described blocks, where a
+    region only extends the tables (`XBlock.comps`): sections, step numbers and item indices of the steps
+    around it are as if the region's steps were not there, except that component indices count the region's
+    components; a later `&name` resolves to a definition made in the region under the conditions of
+    `IngrRefOKG` (in particular not both with an amount: the definition is outside a step).  The mode switches
+    are not counted among the `>>` entries of the deprecation notice.  Not covered: `[mode]: steps`,
+    `[mode]: text`, `[duplicate]: ref`; the parser / document level for mode lines. -/
+theorem C01_analysis_components_mode {α : Type} [Arith α] (env : Env) (input : Str) (blocks : List (MBlock α))
+    (hside : ∀ b ∈ blocks, b.SideOK env)
+    (hok : xOK env {} [] ⟨none, []⟩ 1 (blocks.map (MBlock.x env))) :
+    ∃ c : Col α, parseEvents env input (blocks.flatMap MBlock.events) = ⟨some c, c.diags, none⟩ ∧
+      c.sections = (xRun env {} [] ⟨none, []⟩ 1 [] (blocks.map (MBlock.x env))).secs ∧
+      c.ingredients = (xRun env {} [] ⟨none, []⟩ 1 [] (blocks.map (MBlock.x env))).T.ing ∧
+      c.cookware = (xRun env {} [] ⟨none, []⟩ 1 [] (blocks.map (MBlock.x env))).T.cw ∧
+      c.timers = (xRun env {} [] ⟨none, []⟩ 1 [] (blocks.map (MBlock.x env))).T.tm ∧
+      c.metaMap = (xRun env {} [] ⟨none, []⟩ 1 [] (blocks.map (MBlock.x env))).metaMap ∧
+      c.diags = deprecation (docSpans (mEntries blocks)) ∧
+      c.inlineQ = #[] ∧ c.frontMatter = none :=
+  rtm_parseEvents_mdoc env input blocks hside hok
+
+/-- in `xRun` a components-mode region changes the tables only: finished sections, current section, step
+    number and `>>` map are passed on as they are -/
+theorem C01_components_mode_run {α : Type} [Arith α] (env : Env) (T : XTbls α) (secs : List Section) (cur : Section)
+    (num : Nat) (m : List (Str × Str)) (st : List (XItem α)) (r : List (XBlock α)) :
+    xRun env T secs cur num m (.comps st :: r) = xRun env (xCTbls T st) secs cur num m r := rfl
+
+/-! example: `>> [mode]: components`, a step `@salt{=1%tsp}`, `>> [mode]: all`, then the step `Add @&salt`:
+    one step, numbered 1, holding the reference (index 1); `salt` is in the table with
+    `defined_in_step = false` and lists the reference back; no diagnostic (not even the deprecation notice) -/
+def C01_modesEnv : Env := ⟨toyCharSpec, ⟨Gen.EXT_MODES⟩, fun _ => none, fun _ _ => .ok, fun c => [c], 0⟩
+def C01_exModeBlocks : List (MBlock Rat) :=
+  [.comps (C01_txt "[mode]" 3) (C01_txt "components" 11) [[.ingredient C01_exSalt1]] (C01_txt "[mode]" 40) (C01_txt "all" 48),
+   .plain (.step [.text (C01_txt "Add " 60), .ingredient C01_exSaltRef])]
+example : ∀ b ∈ C01_exModeBlocks, b.SideOK C01_modesEnv := by
+  intro b hb
+  simp only [C01_exModeBlocks, List.mem_cons, List.not_mem_nil, or_false] at hb
+  rcases hb with rfl | rfl
+  · refine ⟨⟨by decide, by decide, by decide⟩, ⟨by decide, by decide, by decide⟩, ?_⟩
+    intro st hst it hit
+    simp only [List.mem_cons, List.not_mem_nil, or_false] at hst
+    subst hst
+    simp only [List.mem_cons, List.not_mem_nil, or_false] at hit
+    subst hit
+    exact ⟨rfl, by decide, by intro q hq; cases hq; intro _; exact ⟨rfl, rfl⟩⟩
+  · intro it hit
+    simp only [List.mem_cons, List.not_mem_nil, or_false] at hit
+    rcases hit with rfl | rfl
+    · intro h; exact absurd h (by decide)
+    · intro q hq; cases hq
+example : xOK C01_modesEnv {} [] ⟨none, []⟩ 1 (C01_exModeBlocks.map (MBlock.x C01_modesEnv)) :=
+  C01_reference_conditions_check _ _ _ _ _ _ (by decide)
+example : (xRun C01_modesEnv {} [] ⟨none, []⟩ 1 [] (C01_exModeBlocks.map (MBlock.x C01_modesEnv))).secs =
+    [⟨none, [.step ⟨[.text "Add ".toList, .ingredient 1], 1⟩]⟩] := by decide
+example : (xRun C01_modesEnv {} [] ⟨none, []⟩ 1 [] (C01_exModeBlocks.map (MBlock.x C01_modesEnv))).T.ing.toList.map
+      (fun i => (i.name, i.relation)) =
+    [("salt".toList, ⟨.definition [1] false, none⟩), ("salt".toList, ⟨.reference 0, some .ingredient⟩)] := by decide
+example : (parseEvents C01_modesEnv [] (C01_exModeBlocks.flatMap MBlock.events)).output.map
+      (fun c => (c.ingredients.toList.map (·.relation), c.sections, c.diags.toList)) =
+    some ([⟨.definition [1] false, none⟩, ⟨.reference 0, some .ingredient⟩],
+          [⟨none, [.step ⟨[.text "Add ".toList, .ingredient 1], 1⟩]⟩], []) := by rfl
+/-- a text with a letter inside a components-mode step is reported: the condition on texts is needed -/
+example : (parseEvents (α := Rat) C01_modesEnv [] (compsEvents (C01_txt "[mode]" 3) (C01_txt "components" 11)
+      [[.text (C01_txt "Add " 20)]] (C01_txt "[mode]" 40) (C01_txt "all" 48))).diags.toList.map (·.kind) =
+    ["text-in-components-mode"] := by rfl
 
 end Cook
